@@ -69,6 +69,10 @@ def _text_table(rng, maxrows, ragged_ok=True):
     hdr = FIELDS[:nf]
     n = rng.randint(0, maxrows)
     rows = [list(hdr)]
+    if rng.random() < 0.04:
+        # a table that yields nothing at all, not even a header (an empty
+        # list, fromcsv of an empty file): to* and tee* both accept it
+        return []
     ragged = ragged_ok and rng.random() < 0.25
     for _ in range(n):
         row = [rng.choice(SPECIAL + [1, 2.5, None, True]) for _ in hdr]
